@@ -20,6 +20,7 @@ import GqlModel.Exec
 | `completePlannedValue(CatchingError)`, `…ListValue`, `…ObjectValue`, `…AbstractValue` | `mComplete`, `mItems` |
 | the closure returned for a func result             | `PVal.deferred (cl : Closure)` — a closure as data |
 | `completePlannedThunkValueCatchingError`           | `force` |
+| `for f, ok := v.(func() interface{}); ok; … { v = f() }` at the five dethunk sites | `forceLoop`, `forceAll` |
 | `dethunkMapWithBreadthFirstTraversal` & co. (FIFO queue, sorted keys) | `bfsLoop`, `bfsEntries` on response paths as addresses |
 | `dethunkValueDepthFirst`, `dethunkMapDepthFirst`, `dethunkListDepthFirst` | `dfsVal`, `dfsFields`, `dfsItems` |
 
@@ -38,8 +39,8 @@ Conventions of the model.
   to catch it: the failure escapes to the request level, data none, errors recorded so far ++ that one: known finding D-04c).
 * **A func result is not completed but wrapped** (`completePlannedValue` tests `reflect.Func` before anything else, at the type the
   position was entered with). It is forced later: queries — breadth-first over the assembled data, maps in sorted key order;
-  mutations — depth-first for every top-level field right after it resolved, then once more over the whole map. Forcing is ONE call:
-  if the forced value is itself a func, the new closure stays in the data (queries) or is forced by the final pass (mutations).
+  mutations — depth-first for every top-level field right after it resolved, then once more over the whole map. At every site a closure
+  is called again and again until what it yields is no closure (`forceLoop`, commit 2cf0d14: a deferred value may yield a deferred value).
 * `copyArgValue` (deep copy of pre-coerced arguments per call) has no counterpart: values here are immutable. What it protects
   (no aliasing between executions) is probed by the harness with argument-mutating resolvers (C20).
 * Extensions, context cancellation, the result channel are other properties' models (C15–C17).
@@ -552,6 +553,22 @@ def force (c : Ctx) (alt : Alt) (fuel : Nat) (cl : Closure) (st : MSt) : Res PVa
       | (.fail, st) => if cl.t.isNonNull then (.fail, st) else (.ok (.leaf .null), st)
       | (.fuelOut, st) => (.fuelOut, st)
 
+/-- the loop at every dethunk site: `for f, ok := v.(func() interface{}); ok; f, ok = v.(func() interface{}) { v = f() }` — a deferred
+value may itself yield a deferred value. (Go stores every intermediate `v` back into the map or list; only the last one is ever
+read.) -/
+def forceLoop (frc : Closure → MSt → Res PVal × MSt) : Nat → PVal → MSt → Res PVal × MSt
+  | 0, _, st => (.fuelOut, st)
+  | n + 1, .deferred cl, st =>
+    (match frc cl st with
+    | (.ok v, st) => forceLoop frc n v st
+    | (.fail, st) => (.fail, st)
+    | (.fuelOut, st) => (.fuelOut, st))
+  | _ + 1, v, st => (.ok v, st)
+
+/-- what a dethunk site does with a closure it finds: call it, and what it yields, until a value that is no closure comes out -/
+def forceAll (c : Ctx) (alt : Alt) (fuel : Nat) : Closure → MSt → Res PVal × MSt :=
+  fun cl st => forceLoop (force c alt fuel) fuel (.deferred cl) st
+
 /-- one container of the breadth-first pass (`dethunkMapBreadthFirst` / `dethunkListBreadthFirst`): its entries in order; a closure
 is called and replaced, then maps and lists are queued -/
 def bfsEntries (frc : Closure → MSt → Res PVal × MSt) (p : Path) :
@@ -582,8 +599,8 @@ def bfsLoop (frc : Closure → MSt → Res PVal × MSt) : Nat → PVal → List 
     | none => bfsLoop frc fuel root q st
 
 mutual
-/-- `dethunkValueDepthFirst` (also the loop body of `dethunkMapDepthFirst` / `dethunkListDepthFirst`): call a closure ONCE, then
-descend into a map or list -/
+/-- `dethunkValueDepthFirst` (also the loop body of `dethunkMapDepthFirst` / `dethunkListDepthFirst`): force a closure (`frc` = `forceAll`),
+then descend into a map or list -/
 def dfsVal (frc : Closure → MSt → Res PVal × MSt) : Nat → PVal → MSt → Res PVal × MSt
   | 0, _, st => (.fuelOut, st)
   | fuel + 1, v, st =>
@@ -638,7 +655,7 @@ def mRootMut (c : Ctx) (alt : Alt) (dfuel : Nat) : Nat → String → List Field
     | some fd =>
       match mField c alt fuel false rt .nil [.key fp.key] [(rt, fp.key)] fp fd st with
       | (.ok v, st) =>
-        (match dfsVal (force c alt dfuel) dfuel v st with
+        (match dfsVal (forceAll c alt dfuel) dfuel v st with
         | (.ok v', st) => mRootMut c alt dfuel fuel rt rest (acc ++ [(fp.key, v')]) st
         | (.fail, st) => (.fail, st)
         | (.fuelOut, st) => (.fuelOut, st))
@@ -666,12 +683,12 @@ def runPlan (c : Ctx) (alt : Alt) (q : Plan) (fuel : Nat) (st : MSt) : Res (List
     match mRootMut c alt fuel fuel q.rootType q.root [] st with
     | (.ok fs, st) =>
       -- dethunkMapDepthFirst(data): the final pass
-      dfsFields (force c alt fuel) fuel (sortedKeys fs) fs st
+      dfsFields (forceAll c alt fuel) fuel (sortedKeys fs) fs st
     | r => r
   else
     match mGroups c alt fuel false q.rootType .nil [] [] q.root [] st with
     | (.ok fs, st) =>
-      (match bfsLoop (force c alt fuel) fuel (.obj fs) [[]] st with
+      (match bfsLoop (forceAll c alt fuel) fuel (.obj fs) [[]] st with
       | (.ok root, st) => (.ok root.fields, st)
       | (.fail, st) => (.fail, st)
       | (.fuelOut, st) => (.fuelOut, st))
